@@ -546,7 +546,11 @@ impl Tcp {
             },
             Segment::Fin(seq) => match self.sockets.get_mut(&SocketPair::new(dst, src)) {
                 Some(sock) => sock.buffer(seq, SequencedSegment::Fin)?,
-                None => return Err(Protocol::Tcp(Segment::Rst)),
+                // The local end already closed both halves (it sent its own FIN
+                // when it did). The peer's FIN carries no data, so nothing is
+                // lost: answering with a RST would tear down the peer's socket
+                // and discard segments of ours that are still in flight to it.
+                None => {}
             },
             Segment::Rst => {
                 if self.sockets.get(&SocketPair::new(dst, src)).is_some() {
